@@ -174,7 +174,11 @@ impl<'c> Driver<'c> {
     pub fn root(&self, cx: &mut Cx) -> Option<(Board, &'static str, &'static str, Option<RMove>)> {
         let m = &self.mix;
         let ws = [m.start960, m.dfrc, m.corpus, m.scatter, m.sound, m.pins, m.ep, m.castle, m.promo, m.mating, m.maxbatch, m.sanamb, m.fewmovers, m.rookcap, m.epdisc, m.dense, m.special, m.maxrec];
-        let k = pick_weighted(cx, &ws);
+        let mut k = pick_weighted(cx, &ws);
+        if cx.miri {
+            // under the Miri interpreter only the cheap sources (no rejection sampling)
+            k = *cx.rng.pick(&[0usize, 1, 2, 5, 6, 7]);
+        }
         match k {
             0 => {
                 let n = cx.rng.below(960) as u32;
